@@ -728,11 +728,17 @@ func tripleToRow(t *triple.Triple, cls *semantic.GraphClause) (table.Row, error)
 		if err == nil {
 			r[cls.OIDAlias] = &table.Cell{S: table.CellString(n.ID().String())}
 		} else {
+			var c *table.Cell
 			p, err := o.Predicate()
 			if err != nil {
-				return nil, err
+				// In the case of ID bindings for literal objects we skip the triple if the clause is not optional, otherwise we provide an empty Cell as we want <NULL> to appear in the query result.
+				if !cls.Optional {
+					return nil, &skippableError{"cls.OIDAlias in non-optional clause", err}
+				}
+				c = &table.Cell{}
+			} else {
+				c = &table.Cell{S: table.CellString(string(p.ID()))}
 			}
-			c := &table.Cell{S: table.CellString(string(p.ID()))}
 			r[cls.OIDAlias] = c
 			if !validBinding(cls.OIDAlias, c) {
 				return nil, nil
